@@ -17,7 +17,12 @@ print(os.path.dirname(files[0]))
 PY
 )"
 # demo package: from meta.json if present
-DP="$(python3 -c "import json,sys;print(json.load(open('$D/meta.json')).get('demo_package',''))" 2>/dev/null)"
+DP="$(python3 -c "
+import json,os
+m=json.load(open('$D/meta.json'))
+d=m.get('demo_package','')
+if not d and m.get('demo_test_location'): d=os.path.dirname(m['demo_test_location'])
+print(d)" 2>/dev/null)"
 [ -n "$DP" ] && PKG="$DP"
 cp "$D/$DEMO" "$WT/$PKG/"
 res() { echo "$1"; }
